@@ -8,6 +8,7 @@ package e4
 import (
 	"bytes"
 	"fmt"
+	"io"
 	"os"
 	"path/filepath"
 	"sort"
@@ -15,6 +16,7 @@ import (
 	"syscall"
 
 	"go.etcd.io/etcd/client/pkg/v3/fileutil"
+	"go.etcd.io/etcd/pkg/v3/ioutil"
 )
 
 const sector = 512
@@ -22,7 +24,26 @@ const sector = 512
 // cur is the session the fsync hook reports to (nil: ignore notifications).
 var cur *session
 
-func init() { fileutil.VerifSyncHook = syncHook }
+func init() {
+	fileutil.VerifSyncHook = syncHook
+	ioutil.VerifWriteHook = writeHook
+}
+
+// writeHook: the WAL's page writer has just handed bytes to the segment file (a
+// page-aligned flush in the middle of a large batch, or the flush that precedes
+// a sync).  A process killed here leaves the file exactly as it is now; a power
+// loss leaves any subset of its unsynced sectors: one more crash point.
+func writeHook(w io.Writer) {
+	s := cur
+	if s == nil {
+		return
+	}
+	f, ok := w.(*os.File)
+	if !ok {
+		return
+	}
+	s.onWrite(f)
+}
 
 func syncHook(f *os.File, after bool) {
 	s := cur
